@@ -496,6 +496,8 @@ def run(chk):
             ex, info, exc = c.impl[r.name]
             nontriv = bool(r.feats & {"select", "where", "do", "if", "array-assign"})
             if ex is None:
+                if where_classes(r.ast):
+                    c.good = False      # no model verdict for this routine: its WHEREs are judged by the classifier alone
                 stats["unmodelled"] += 1
                 chk.case({"routine": r.ast}, nontrivial=False, agreed=False)
                 continue
